@@ -487,6 +487,7 @@ class ZorgFileCompiler(ZorgFileListener):
                 any(
                     "::" in b.split()[0]
                     for b in bullet.split(l2_bullet_prefix)[1:]
+                    if b.split()
                 )
                 for bullet in bullets
             ):
@@ -503,6 +504,7 @@ class ZorgFileCompiler(ZorgFileListener):
                 any(
                     "::" in b.split()[0]
                     for b in bullet.split(l3_bullet_prefix)[1:]
+                    if b.split()
                 )
                 for bullet in bullets
             ):
